@@ -301,7 +301,7 @@ def programs(draw, q):
         prog["funcs"].append({"idx": i, "kind": "func", "params": {"ps": [{"kind": "poskw", "default": None, "name": "p%dx0" % i}], "varargs": False, "varkw": False},
                               "anno": False, "flavour": "plain", "rebind": "no", "callee": None, "callee_args": [], "catch": False, "recurse": False,
                               "exit": "param", "yields": [], "awaits": 0})
-        shapes = draw(st.lists(st.tuples(st.sampled_from([["lit", 1], ["lit", "s"], ["lit", 1.5]]), st.integers(1, 6)), min_size=6, max_size=9, unique=True))
+        shapes = draw(st.lists(st.tuples(st.sampled_from([["lit", 1], ["lit", "s"], ["lit", 1.5]]), st.integers(1, 6)), min_size=6, max_size=9, unique_by=repr))
         ops = ops + [["call", i, [["tuple", [e] * n]]] for e, n in shapes]
     prog["ops"] = ops
     prog["drain"] = True
